@@ -215,12 +215,12 @@ def oracle(case, obs):
                                "rate-queue-order")
             return Failure(case, f"lineRate={case['rate']}: {len(got)} lines written, {len(want)} without rate limiting",
                            "rate-queue-lost-or-extra")
-        # at most one line per tick after the first line of a burst
-        done, allowed = 0, 0
+        # rate limiting itself: after a call and its ticks at most (lines before + 1 + ticks) lines are out
+        before = 0
         for n, t in zip([int(x) for x in counts.split(",")], case["ticks"]):
-            if n > len(want):
-                return Failure(case, "more lines counted than written", "rate-count")
-            done = n
+            if n > before + 1 + t:
+                return Failure(case, f"{n - before} lines written within {t} rate interval(s)", "rate-not-limited")
+            before = n
         # and each call on its own satisfies the property (checked on the unqueued sequence, call by call)
         sub = {"kind": "hist", "calls": case["calls"]}
         if "nicklen" in case:
